@@ -175,6 +175,12 @@ def position(g, name, E):
         it = Item("struct", "S", shape="named", attrs=TE + [Instr("ghosts", "ghosts", container=None, entries=[dict(path=None, ident="extra", action=E)])])
         it.fields = [Field("pre", "i32")]
         return it, None
+    if name in ("enum_ghosts_ident", "enum_ghosts_destr"):
+        # enum-level ghosts (counterpart-only variants): member form `X: {..}` and destructuring form `Y(..): {..}`
+        ent = dict(path=None, ident="X", action=E) if name == "enum_ghosts_ident" else dict(path=None, ident=None, destr="Y(..)", action=E)
+        it = Item("enum", "S", attrs=T + [Instr("ghosts", "ghosts", container=None, entries=[ent])])
+        it.variants = [Variant("U"), Variant("V", "tuple", [Field(None, "i32")])]
+        return it, None
     if name in ("vars", "update", "return"):
         par = {"vars": ("vars", [("v1", E)]), "update": ("update", E), "return": ("return", E)}[name]
         it = Item("struct", "S", shape="named", attrs=[Instr("map", "trait", ty="A", hint=None, err=None, params=[par])] + ([Instr("into_existing", "trait", ty="A", hint=None, err=None, params=[par])] if name != "update" else []))
@@ -199,8 +205,8 @@ def position(g, name, E):
 
 
 POSITIONS = ["field_bare", "field_braced", "field_member_bare", "field_member_braced", "tuple_field", "child_field", "parent_entry", "ghost_field", "ghosts_entry",
-             "vars", "update", "return", "default_case", "variant_expr", "vfield_named", "vfield_tuple"]
-AT_ONLY = {"ghost_field", "ghosts_entry", "vars", "update", "return", "default_case"}
+             "vars", "update", "return", "default_case", "variant_expr", "vfield_named", "vfield_tuple", "enum_ghosts_ident", "enum_ghosts_destr"]
+AT_ONLY = {"ghost_field", "ghosts_entry", "vars", "update", "return", "default_case", "enum_ghosts_ident", "enum_ghosts_destr"}
 BARE = {"field_bare", "field_member_bare", "update", "return", "default_case"}
 
 
@@ -230,7 +236,7 @@ def kind_of(info):
 def run(tier):
     ck = common.Check("C10", tier)
     ck.rule = ("random token trees (nesting of () [] {} to depth 6, string/char/byte/raw literals containing @ and ~, lifetimes, joint punctuation next to placeholders, macros, closures, "
-               "turbofish) placed in each of 16 positions (member instruction bare/braced, with/without member, tuple field, child field, [..] parent entry, ghost, ghosts, vars, "
+               "turbofish) placed in each of 18 positions (enum-level ghosts in member and destructuring form, member instruction bare/braced, with/without member, tuple field, child field, [..] parent entry, ghost, ghosts, vars, "
                "..update, return, _ => default, variant expression, variant fields) for every kind the position produces; per impl exact equality with the marker expansion in which the "
                "marker is replaced by the independently substituted tree. distinct_nontrivial = distinct (position, kind, max depth, delimiters containing a placeholder, adjacency classes).")
     g = xgen.G(common.rng_for("C10", tier))
